@@ -221,7 +221,7 @@ impl W {
         toks.into_iter().map(|(_, f)| meta(f, false, false)).collect()
     }
 
-    fn ensure_ata(&self, db: &mut Db, owner: &Pubkey, mint: &Pubkey) -> Pubkey {
+    pub fn ensure_ata(&self, db: &mut Db, owner: &Pubkey, mint: &Pubkey) -> Pubkey {
         let k = ata(owner, mint);
         if !db.exists(&k) {
             db.set(k, token_acc(*mint, *owner, 0));
